@@ -420,25 +420,6 @@ Section Stmt.
             if isT (cur ts2) TyComma then values_rows n' d (acc ++ [row]) (advance ts2) else Val (acc ++ [row], ts2)
     end.
 
-  (* parseInsertStatement: INSERT already consumed *)
-  Definition parse_insert (d : nat) (ts : list token) : sres gstmt :=
-    if negb (isT (cur ts) TyInto) then Err EExpected
-    else
-      do (tname, ts) <- rewrap EExpected (parse_qualified_name (advance ts));
-      do (cols, ts) <- (if isT (cur ts) TyLParen then paren_ident_list ts else Val ([], ts));
-      do (src, ts) <-
-        (if isT (cur ts) TySelect then
-           do (q, ts1) <- parse_select_setops d (advance ts); Val (([], Some q), ts1)
-         else if isT (cur ts) TyValues then
-           let ts := advance ts in
-           do (rows, ts1) <- values_rows (S (length ts)) d [] ts; Val ((rows, None), ts1)
-         else Err EExpected);
-      let '(rows, q) := src in
-      if isT (cur ts) TyOn && (String.eqb (upper (lit (peek ts))) "CONFLICT" || String.eqb (upper (lit (peek ts))) "DUPLICATE") then Unmodelled
-      else
-        do (ret, ts) <- parse_returning d ts;
-        Val (GInsert None tname (map (fun c => GIdent c "") cols) rows q ret None [], ts).
-
   (* SET assignments: `for { ident; =; expr; if !comma break; advance }` *)
   Fixpoint set_list (n : nat) (d : nat) (acc : list (gexpr * gexpr)) (ts : list token) : outcome (list (gexpr * gexpr) * list token) :=
     match n with
@@ -457,6 +438,53 @@ Section Stmt.
 
   Definition parse_opt_where (d : nat) (ts : list token) : outcome (option gexpr * list token) :=
     if isT (cur ts) TyWhere then do (e, ts1) <- pe d (advance ts); Val (Some e, ts1) else Val (None, ts).
+  (* parseOnConflictClause: ON CONFLICT already consumed (keywords compared case-insensitively since /repo "fix: the ON
+     CONFLICT clause reads its keywords case-insensitively") *)
+  Definition parse_on_conflict (d : nat) (ts : list token) : sres gconflict :=
+    do (tg, ts) <-
+      (if isT (cur ts) TyLParen then
+         do (l, ts1) <- paren_ident_list ts; Val ((map (fun c => GIdent c "") l, ""%string), ts1)
+       else if isT (cur ts) TyOn && eqfold (lit (peek ts)) "CONSTRAINT" then
+         let ts := advance (advance ts) in
+         if negb (is_identifier (cur ts)) then Err EExpected else Val (([], lit (cur ts)), advance ts)
+       else Val (([], ""%string), ts));
+    if negb (eqfold (lit (cur ts)) "DO") then Err EExpected
+    else
+      let ts := advance ts in
+      if eqfold (lit (cur ts)) "NOTHING" then Val (GConflict (fst tg) (snd tg) true [] None, advance ts)
+      else if isT (cur ts) TyUpdate then
+        let ts := advance ts in
+        if negb (isT (cur ts) TySet) then Err EExpected
+        else
+          let ts := advance ts in
+          do (asg, ts1) <- set_list (S (length ts)) d [] ts;
+          do (wh, ts2) <- parse_opt_where d ts1;
+          Val (GConflict (fst tg) (snd tg) false asg wh, ts2)
+      else Err EExpected.
+
+  (* parseInsertStatement: INSERT already consumed *)
+  Definition parse_insert (d : nat) (ts : list token) : sres gstmt :=
+    if negb (isT (cur ts) TyInto) then Err EExpected
+    else
+      do (tname, ts) <- rewrap EExpected (parse_qualified_name (advance ts));
+      do (cols, ts) <- (if isT (cur ts) TyLParen then paren_ident_list ts else Val ([], ts));
+      do (src, ts) <-
+        (if isT (cur ts) TySelect then
+           do (q, ts1) <- parse_select_setops d (advance ts); Val (([], Some q), ts1)
+         else if isT (cur ts) TyValues then
+           let ts := advance ts in
+           do (rows, ts1) <- values_rows (S (length ts)) d [] ts; Val ((rows, None), ts1)
+         else Err EExpected);
+      let '(rows, q) := src in
+      if isT (cur ts) TyOn && String.eqb (upper (lit (peek ts))) "DUPLICATE" then Unmodelled
+      else
+        do (oc, ts) <-
+          (if isT (cur ts) TyOn && String.eqb (upper (lit (peek ts))) "CONFLICT" then
+             do (c, ts1) <- parse_on_conflict d (advance (advance ts)); Val (Some c, ts1)
+           else Val (None, ts));
+        do (ret, ts) <- parse_returning d ts;
+        Val (GInsert None tname (map (fun c => GIdent c "") cols) rows q ret oc [], ts).
+
   (* MySQL `LIMIT n` after UPDATE / DELETE: skipped *)
   Definition skip_limit (ts : list token) : list token :=
     if isT (cur ts) TyLimit then
